@@ -5,9 +5,9 @@ import "verif/txpipe"
 
 func main() {
 	txpipe.Main(txpipe.CheckDef{
-		ID:     "C01",
-		Groups: []string{"ser", "con"},
-		Oracles: txpipe.Oracles{Serializable: true},
+		ID:         "C01",
+		Groups:     []string{"ser", "con"},
+		Oracles:    txpipe.Oracles{Serializable: true},
 		QuickBound: 1, ThoroughBound: 2,
 		Rule: "Oracle: the committed update transactions that wrote something are replayed serially, in commit order, on a reference model (ordered maps); every lookup result, every row of every scan incl. where it stopped, and every error class must equal what the real transaction observed, every published state must be a prefix of that serial history and the final database must equal the model (no lost update, no phantom).",
 	})
